@@ -11,7 +11,7 @@ RULE = ('case = (exception kind) x (source mode legal for the configuration and 
         'SCTLR.{V,VE,TE,EE} x SCR.{NS,EA,IRQ,FIQ,AW,FW} x HCR.{TGE,IMO,FMO,AMO} x HSCTLR.{TE,EE} x VBAR/MVBAR/HVBAR x PC '
         'in {0, mid, top of the address space} x configuration in {no extensions, Security, Security+Virtualization}; all '
         'factors drawn independently at random (every pair of factor values occurs many times); the full post-state is '
-        'compared with the reference entry. non-trivial = always (an entry changes mode/SPSR/LR/PC); distinct = (kind, '
+        'compared with the reference entry. source state ThumbEE (J = T = 1) for a fifth of the Thumb-state direct entries; Hyp traps taken from inside a stepped WFI/WFE (HCR.TWI/TWE); non-trivial = always (an entry changes mode/SPSR/LR/PC); distinct = (kind, '
         'route taken, source mode, T, configuration)')
 ASSUMPTIONS = ['vf/ref/model.py transcribes TakeUndefInstrException ... TakePhysicalFIQException / EnterMonitorMode / '
                'EnterHypMode / TakeReset; HSR contents are UNKNOWN for the routed cases and not compared',
